@@ -155,6 +155,10 @@ func c16Inconsistent(it c16Items) (bad []string) {
 		it.IVP.Point().Round() != it.AVP.Point().Round() ||
 		it.IVP.Point().Stage() != base.StageINIT || it.AVP.Point().Stage() != base.StageACCEPT:
 		bad = append(bad, "voteproof-point")
+	case c16RoundNotOfProposal(it):
+		// the manifest names its height and, through the proposal it commits to, its round: the block's point is the point of
+		// the proposal whose fact hash is in the manifest
+		bad = append(bad, "voteproof-point")
 	}
 
 	// ... with an ACCEPT majority for the manifest hash
@@ -166,6 +170,35 @@ func c16Inconsistent(it c16Items) (bad []string) {
 	}
 
 	return bad
+}
+
+// c16RoundNotOfProposal: the served proposal is the one the manifest commits to (fact hash), and a voteproof is of
+// another point (height, round) than that proposal.
+func c16RoundNotOfProposal(it c16Items) bool {
+	if it.Proposal == nil || it.IVP == nil || it.AVP == nil || !it.Proposal.Fact().Hash().Equal(it.Manifest.Proposal()) {
+		return false
+	}
+
+	return !it.IVP.Point().Point.Equal(it.Proposal.Point()) || !it.AVP.Point().Point.Equal(it.Proposal.Point())
+}
+
+// c16OnlyRoundVsProposal: the only broken clause is the voteproof point, and the two voteproofs agree with each other
+// (INIT and ACCEPT of one point of the manifest's height): what is broken is the round against the manifest's proposal.
+func c16OnlyRoundVsProposal(it c16Items, bad []string) bool {
+	return len(bad) == 1 && bad[0] == "voteproof-point" && it.IVP != nil && it.AVP != nil &&
+		it.IVP.Point().Height() == it.Manifest.Height() && it.IVP.Point().Point.Equal(it.AVP.Point().Point) &&
+		it.IVP.Point().Stage() == base.StageINIT && it.AVP.Point().Stage() == base.StageACCEPT &&
+		c16RoundNotOfProposal(it)
+}
+
+// c16OtherRound draws a round of the same height other than r (a later round, or an earlier one if there is one).
+func c16OtherRound(rt *rapid.T, r base.Round) base.Round {
+	d := rapid.SampledFrom([]int{1, 2, 7, -1}).Draw(rt, "roundDelta")
+	if d < 0 && r < 1 {
+		d = 1
+	}
+
+	return base.Round(int64(r) + int64(d))
 }
 
 // c16OnlyEmptyAgainstRoot: all broken clauses are operations/states served as nothing at all (no items, tree of zero
@@ -527,6 +560,7 @@ var c16Kinds = []string{
 	"all-operations-dropped", "operations-dropped-tree-emptied",
 	"proposal-other-block", "proposal-same-point-other-fact",
 	"voteproofs-other-block", "accept-majority-other-block",
+	"init-voteproof-other-round", "accept-voteproof-other-round", "voteproofs-other-round",
 	"manifest-other-states-root", "manifest-other-operations-root", "manifest-other-proposal",
 	"file-swapped-after-signing",
 }
@@ -760,6 +794,44 @@ func c16Apply(rt *rapid.T, s *c15Src, tm *c16Tamper, it *c16Items) {
 
 		fact := isaac.NewACCEPTBallotFact(it.AVP.Point().Point, it.Manifest.Proposal(), other.Map.Manifest().Hash(), nil)
 		it.AVP = gen.FullACCEPTVoteproof(fact, voters, 67, nil)
+	case "init-voteproof-other-round", "accept-voteproof-other-round", "voteproofs-other-round":
+		// valid voteproofs of the block's height but of another round than the block's (e.g. the INIT voteproof of a drawn
+		// earlier round, or of a later round): the INIT alone, the ACCEPT alone (majority still the manifest hash and the
+		// manifest's proposal), or both at the same other round. Facts as in the genuine voteproofs except the round; signed
+		// by the attacker's own nodes or by the signers of the genuine voteproofs
+		imj, amj := it.IVP.BallotMajority(), it.AVP.BallotMajority()
+		if imj == nil || amj == nil {
+			rt.Fatalf("harness: voteproofs of block %d have no majority", tm.Height)
+		}
+
+		point := base.NewPoint(h, c16OtherRound(rt, it.AVP.Point().Round()))
+		realSigners := rapid.Bool().Draw(rt, "realSigners")
+
+		voters := func(sfs []base.BallotSignFact) []base.LocalNode {
+			if !realSigners {
+				return []base.LocalNode{gen.Local(40), gen.Local(41), gen.Local(42)}
+			}
+
+			var vs []base.LocalNode
+
+			for _, sf := range sfs {
+				vs = append(vs, gen.LocalByAddress(sf.Node()))
+			}
+
+			return vs
+		}
+
+		if tm.Kind != "accept-voteproof-other-round" {
+			fact := isaac.NewINITBallotFact(point, imj.PreviousBlock(), imj.Proposal(), nil)
+			it.IVP = gen.FullINITVoteproof(fact, voters(it.IVP.SignFacts()), it.IVP.Threshold(), nil)
+		}
+
+		if tm.Kind != "init-voteproof-other-round" {
+			fact := isaac.NewACCEPTBallotFact(point, amj.Proposal(), amj.NewBlock(), nil)
+			it.AVP = gen.FullACCEPTVoteproof(fact, voters(it.AVP.SignFacts()), it.AVP.Threshold(), nil)
+		}
+
+		tm.Detail = fmt.Sprintf("round %d instead of %d, signed by the suffrage: %v", point.Round(), it.Proposal.Point().Round(), realSigners)
 	case "manifest-other-states-root":
 		m := it.Manifest
 		it.Manifest = isaac.NewManifest(m.Height(), m.Previous(), m.Proposal(), m.OperationsTree(), other.Map.Manifest().StatesTree(), m.Suffrage(), m.ProposedAt())
@@ -925,6 +997,8 @@ func TestC16(t *testing.T) {
 				switch {
 				case tm.Swapped:
 					sig = "item-not-matching-map-checksum-stored"
+				case c16OnlyRoundVsProposal(it, bad):
+					sig = "voteproofs-round-not-bound-to-proposal"
 				case len(bad) == 1 && bad[0] == "accept-majority":
 					sig = "accept-majority-not-bound-to-manifest"
 				case len(bad) == 1 && bad[0] == "voteproof-point", len(bad) == 2 && bad[0] == "voteproof-point" && bad[1] == "accept-majority":
@@ -951,6 +1025,10 @@ func TestC16(t *testing.T) {
 			switch {
 			case c16OnlyEmptyAgainstRoot(it, bad):
 				sig = "validator-accepts-empty-tree-for-manifest-root"
+			case c16OnlyRoundVsProposal(it, bad):
+				// INIT and ACCEPT agree with each other and with the manifest's height, but not with the round of the
+				// proposal the manifest commits to: the same root cause for importer and validator
+				sig = "voteproofs-round-not-bound-to-proposal"
 			case c16OnlyTreeNotHashingToRoot(it, bad):
 				// the tree carries the manifest's root in its root node, but a node key or node hash below is not what
 				// that root commits to
